@@ -179,7 +179,7 @@ def py_int(ip, args):
         rk = numkind(ip, radix)
         if rk != 'int':
             raise_('TypeError', "'float' object cannot be interpreted as an integer")
-        if kind_of(ip, val) != 'str':
+        if (kind_of(ip, val) or resolve_kind(ip, val, ('str',))) != 'str':
             raise_('TypeError', "int() can't convert non-string with explicit base")
         s, r = str_term(ip, val), int_term(ip, radix)
         if ctx.branch(z3.Not(z3.Or(r == 0, z3.And(r >= 2, r <= 36)))):
